@@ -11,6 +11,15 @@ BUILT = {
    text="Seeded simulation search with an independent protocol-27 peer: the reference receiver sends the real sender checksum sets of its own choosing (block lengths 1..131072, strong lengths 2..16, bases with colliding weak sums, duplicated blocks, recurring remainder blocks, short-reading simulated disk) and checks that the token stream reproduces the source; the reference sender feeds the real receiver scripted token streams. The thorough tier additionally enumerates all targets x bases over {a,b} up to length 6 x block lengths 1..4.",
    note="Trusted: verif/sim/refproto (cross-checked against tridge rsync 3.2.7 --protocol=27 by go test ./refproto), fstree content generator.",
    tech="deterministic simulation with a reference protocol peer as oracle; bounded enumeration of a small-alphabet sub-space"),
+ "C03": dict(cat="fault_enumeration", ref="DESIGN.md §6 C03",
+   text="Single faults enumerated by protocol position: the fault-free run's wire history is decoded to locate every token word, literal byte and trailer byte of every file; faulted re-runs flip one bit at a drawn position (10 per scenario quick, 60 thorough), or let an external writer change the basis at a drawn scheduler step; a reference sender additionally sends perturbed token streams under the true checksum. After every faulted run each file must hold its previous or exactly the sender's content, and success implies full update.",
+   note="Positions are sampled per scenario, not exhausted; huge-length token flips and index/sum-head flips are outside the stated quantifier. Trusted: refproto parser, fstree snapshots.",
+   tech="deterministic simulation with fault injection: protocol-addressed bit flips, basis mutation at scheduler steps, lying reference sender"),
+ "C17": dict(cat="exploration", ref="DESIGN.md §6 C17",
+   text="A causal re-framing middlebox re-cuts the real server's multiplexed output into frames of adversarial sizes with info-frame runs (up to 500), empty frames and error frames; the client's result must equal that of the un-reframed run, and error frames must surface with the server's message. Every frame the real server emits is checked, also on the error path (upload damaged in flight so that the server fails while its generator is still writing).",
+   note="Frame sizes above the documented 256 KiB limit are not generated. One known finding (server message lost when the generator's write error wins) is reported as KNOWN-FINDING.",
+   tech="deterministic simulation with a re-framing transport stage; differential oracle against the un-reframed run; frame well-formedness monitor under fault"),
+
  "C04": dict(cat="fault_enumeration", ref="DESIGN.md §6 C04",
    text="Every quiescent point of every simulated session (receiver parked in Read at byte N) is a checked crash point: each listed destination path must be old-complete, new-complete or legitimately absent. On top, connection cuts of either direction and freezes of the receiving party are injected at sampled byte offsets (6 per scenario quick, 30 thorough); after an error return no temporary file may remain.",
    note="Crash points are wire-token boundaries; crashes between two syscalls of one goroutine and power-loss durability are not simulated (no storage seam). One known finding (leftover temp file when the generator's write fails first) is reported as KNOWN-FINDING.",
